@@ -68,7 +68,7 @@ def showEv : Ev → String
   | .addOk c => s!"A+{c}"
   | .addRej c => s!"A-{c}"
   | .disp => "/"
-  | .sleep => "S"
+  | .sleep p => if p then "S!" else "S"
   | .read c n e => s!"R{c}:{n}" ++ (if e then "e" else "")
   | .close c => s!"C{c}"
   | .wake => "W"
